@@ -450,9 +450,30 @@ def translate_vis(src=None):
         i += 1
     body = code[h.end():i - 1]
     m = re.fullmatch(r"\s*" + arg + r"\s*\.\s*chars\s*\(\s*\)\s*\.\s*map\s*\(\s*\|\s*([a-z_][a-z0-9_]*)\s*\|\s*match\s+([a-z_][a-z0-9_]*)\s*\{(.*)\}\s*\)\s*\.\s*collect\s*\(\s*\)\s*", body, flags=re.S)
-    if not m:
-        raise Unsupported("body is not `<x>.chars().map(|c| match c { … }).collect()`")
-    var, scrut, arms = m.group(1), m.group(2), m.group(3)
+    if m:
+        var, scrut, arms = m.group(1), m.group(2), m.group(3)
+    else:
+        # second accepted shape, the same function written as an explicit loop:
+        #   let mut OUT = String::new() | String::with_capacity(<expr without braces/semicolons>);
+        #   for C in <x>.chars() { let V = match C { … }; OUT.push(V); }   (or `OUT.push(match C { … });`)
+        #   OUT
+        I = r"([a-z_][a-z0-9_]*)"
+        m2 = re.fullmatch(r"\s*let\s+mut\s+" + I + r"\s*=\s*String\s*::\s*(?:new\s*\(\s*\)|with_capacity\s*\([^;{}]*\))\s*;"
+                          r"\s*for\s+" + I + r"\s+in\s+" + arg + r"\s*\.\s*chars\s*\(\s*\)\s*\{"
+                          r"\s*(?:let\s+" + I + r"\s*=\s*match\s+" + I + r"\s*\{(.*)\}\s*;\s*" + I + r"\s*\.\s*push\s*\(\s*" + I + r"\s*\)\s*;"
+                          r"|" + I + r"\s*\.\s*push\s*\(\s*match\s+" + I + r"\s*\{(.*)\}\s*\)\s*;)"
+                          r"\s*\}\s*" + I + r"\s*", body, flags=re.S)
+        if not m2:
+            raise Unsupported("body is neither `<x>.chars().map(|c| match c { … }).collect()` nor the explicit push loop")
+        out, var = m2.group(1), m2.group(2)
+        if m2.group(3) is not None:
+            v, scrut, arms, out2, v2 = m2.group(3), m2.group(4), m2.group(5), m2.group(6), m2.group(7)
+            if v != v2 or v in (var, out):
+                raise Unsupported("the pushed value is not the match result")
+        else:
+            out2, scrut, arms = m2.group(8), m2.group(9), m2.group(10)
+        if out2 != out or m2.group(11) != out or out == var:
+            raise Unsupported("the loop does not push to / return the one output string")
     if var != scrut:
         raise Unsupported("the match scrutinee is not the closure variable")
     # arms := (CHARLIT '=>' CHARLIT ',')* (('_' | IDENT) '=>' IDENT ','?)
